@@ -17,6 +17,7 @@ the reason is classified and counted, not failed:
                     update must never delete them, so the run ends there; both neighbours still agree on each piece.
 """
 from __future__ import annotations
+import datetime
 import re
 from autobean_refactor import models
 from autobean_refactor.models import base, internal
@@ -490,7 +491,8 @@ def gen_history(ctx, n):
         # phases: widen a region, collapse another - blocks grow past 1.5x and neighbours shrink under half
         for _ in range(n):
             if r.random() < 0.3:
-                op = edits.gen_op(r, d.root, kinds=('numop',) if r.random() < 0.5 else OTHER_EDITS)
+                c = r.random()
+                op = edits.gen_op(r, d.root, kinds=('numop',) if c < 0.4 else ('rep-setitem', 'rep-setslice', 'view-setitem') if c < 0.65 else OTHER_EDITS)
                 if op is not None:
                     yield {'edit': op}
                     cand = [i for i, (p, m) in enumerate(d.nodes) if has_acc(m)]
@@ -506,6 +508,44 @@ def gen_history(ctx, n):
             for i in cand[lo:lo + r.randrange(1, 12)]:
                 yield i, r.choice('ab'), (r.choice(['\n\n\n', '  \t  ', ' \n \n ', '\n\n\n\n']) if grow else r.choice(['', ' ', '\n', r.choice(strings)]))
     return gen
+
+
+def _replace_probes(ctx, fails):
+    """An element of a repeated field replaced (by index) by an element of ANOTHER kind - a bare token by a tree model and
+    the other way round: the accessors of the new element and of everything inside it read the document's store."""
+    import decimal
+    cases = [
+        ('2000-01-01 custom "x" "s"  TRUE  2000-01-02\n', lambda f: f.raw_directives[0].raw_values, 0, lambda: models.Amount.from_value(decimal.Decimal('1.5'), 'USD')),
+        ('2000-01-01 custom "x" "s"  TRUE  2000-01-02\n', lambda f: f.raw_directives[0].raw_values, 1, lambda: models.NumberExpr.from_value(decimal.Decimal(7))),
+        ('2000-01-01 custom "x" 1 USD  TRUE\n', lambda f: f.raw_directives[0].raw_values, 0, lambda: models.EscapedString.from_value('t')),
+        ('; top\n\n2000-01-01 open Assets:A\n', lambda f: f.raw_directives_with_comments, 0, lambda: models.Close.from_value(datetime.date(2000, 1, 1), 'Assets:Z')),
+        ('2000-01-01 *\n  Assets:A  1 USD {2 EUR, 2000-01-01}\n', lambda f: f.raw_directives[0].raw_postings[0].raw_cost.raw_cost.raw_components, 1,
+         lambda: models.Amount.from_value(decimal.Decimal(3), 'GBP')),
+    ]
+    for text, field, idx, make in cases:
+        for ac in (True, False):
+            rep = {'check': 'replace-probe', 'text': text, 'auto_claim': ac, 'idx': idx}
+            try:
+                d = Doc(text, ac)
+                w = field(d.root)
+                if len(w) <= idx:
+                    continue
+                w[idx] = make()
+                d.refresh()
+                d.nodes = [(p, m) for p, m in intro.walk(d.root) if m is not d.root]
+                n0 = len(fails)
+                check_get(ctx, d, fails)
+                for f_ in fails[n0:]:
+                    f_[2].clear()
+                    f_[2].update(rep)
+                new = w[idx]
+                if has_acc(new):
+                    new.spacing_before = '  '
+                    if new.spacing_before != '  ':
+                        fails.append(('C17:readback', f'{type(new).__name__} put in place of another kind of element: spacing_before reads {new.spacing_before!r} after assigning two blanks', rep))
+                ctx.case(('replace-probe', type(new).__name__, idx, ac))
+            except Exception as e:
+                fails.append((f'C17:set-raises', f'replace probe {text[:30]!r}[{idx}]: {type(e).__name__}: {str(e)[:100]}', rep))
 
 
 def check_totok(ctx, lock, n):
@@ -564,11 +604,12 @@ def _run(ctx, n_gen, n_corpus, sets_per_doc, with_model):
             check_set(ctx, text, ac, r.choice(cand), r.choice('ab'), r.choice(strings), fails, lock)
         if len(fails) > 40:
             break
-    for _ in range(ctx.scale(25, 400)):
+    for _ in range(ctx.scale(90, 800)):
         check_history(ctx, docs.gen_file(r, r.choice((4, 8, 12))), r.random() < 0.7, r.choice((4, 5, 6, 8, 10, 16)), None, fails,
                       gen=gen_history(ctx, ctx.scale(12, 20)))
         if len(fails) > 40:
             break
+    _replace_probes(ctx, fails)
     _report(ctx, fails)
     if lock is not None:
         check_totok(ctx, lock, ctx.scale(400, 4000))
@@ -592,6 +633,8 @@ def replay(ctx, data):
         d = Doc(rep['text'], rep['auto_claim'])
         check_get(ctx, d, fails)
         check_sides(ctx, d, fails)
+    elif rep.get('check') == 'replace-probe':
+        _replace_probes(ctx, fails)
     elif rep.get('check') == 'hist':
         check_history(ctx, rep['text'], rep['auto_claim'], rep['lf'], [x if isinstance(x, dict) else tuple(x) for x in rep['steps']], fails)
     elif rep.get('check') == 'totok':
